@@ -237,6 +237,8 @@ class ClassParser(BaseParser):
             #     option_list.append(parser.options)
 
             fields.update(parser.fields)
+            # the inherited fields may still hold pending references: this class has to resolve them as well
+            self.forward_refs.update(parser.forward_refs)
             annotations.update(parser.annotations)
             exclude_vars.update(parser.exclude_vars)
             alias_map.update(parser.field_alias_map)
